@@ -660,7 +660,8 @@ class C15(Property):
             'each issued settled / one loop iteration after / back-to-back with the previous op, interleaved with '
             'releases of the worker\'s pending network call (send ok|failure, exists|not-exists|error|silence), '
             'virtual-time advances around the 10 s / 600 s delays and server closes; 38 % from scenario templates '
-            '(exit window, no-op exit, close during retry cancellation, retries, transfer-manager cycles) with random '
+            '(exit window, no-op exit, close during retry cancellation, retries, cycles of the real '
+            'TransferManager.manage_user_tracking) with random '
             'prefixes; a case is non-trivial when an AddUser attempt was made and a call was issued while that '
             'user\'s worker was busy or had not run since the previous op; distinct = distinct op list')
     assumptions = [
@@ -676,7 +677,9 @@ class C15(Property):
                 '_request_untracking, _set_tracking_state, _request_retry, _get_tracked_user_object, '
                 '_on_tracking_task_done, _on_state_changed/stop (atomic), get_tracking_state/flags — with the two '
                 'proposed fixes; exercised only: UserManager wrappers, EventBus, TrackingFlag/TrackingState enums; '
-                'not run: TransferManager.manage_user_tracking (its call pattern is emulated)')
+                'TransferManager.manage_user_tracking (real method run on a stand-in holding real Transfer objects; '
+                'its calls are checked against "track(TRANSFER) per unfinished user, untrack(TRANSFER) per '
+                'finished-only user")')
 
     def regenerate(self):
         return [track_constants.generate(common.REPO, common.LEAN)]
